@@ -512,6 +512,10 @@ static std::string knownTag(const std::string &sum) {
   if (sum.find("cellPred != cellNext") != std::string::npos) return "F3_addRow_assert";
   if (sum.find("checkSolutionOptimal") != std::string::npos) return "F11_checkSolutionOptimal";
   if (sum.find("computeSubdivisions") != std::string::npos || sum.find("helpers.hpp") != std::string::npos) return "NEW_computeSubdivisions";
+  if (sum.find("nan is outside the range") != std::string::npos || sum.find("inf is outside the range") != std::string::npos)
+    return "NEW_global_nonfinite_position";
+  if (sum.find("-2147483648") != std::string::npos && sum.find("tetris_legalizer") != std::string::npos)
+    return "NEW_global_nonfinite_position(consequence)";
   return "other";
 }
 
@@ -564,10 +568,18 @@ static Rec flowRecord(const std::string &id, long long k, const Case &cs, int ti
   r.k = k; r.stage = "F"; r.id = id;
   std::string output, diag;
   std::string fate = vh::isolated([&](std::ostream &os) { runFlow(cs, os); }, output, timeout, &diag);
+  bool retried = false;
+  if (fate == "timeout") {
+    // slow is not the same as non-terminating (ASan costs 10-20x and the machine may be loaded): a timeout is only
+    // reported if the case also exceeds eight times the budget
+    retried = true;
+    fate = vh::isolated([&](std::ostream &os) { runFlow(cs, os); }, output, 8 * timeout, &diag);
+  }
   r.fate = fate;
   std::ostringstream cnt;
   cnt << "flow_kind_" << cs.kind << ",flow_shape_" << SHAPES[cs.shape] << ",flow_seq_" << cs.seq << ",flow_params_mode_" << cs.pmode
       << ",flow_maxabs_2^" << log2Bucket(cs.spec.maxAbs()) << ",flow_fate_" << fate;
+  if (retried) cnt << ",flow_slow_case_retried";
   bool anyOk = false;
   {
     std::istringstream is(output);
